@@ -321,6 +321,8 @@ class Initiator(DataExchangeProtocol):
                     error = "received NFC-DEP RTOX response to NACK or ATN"
                     raise nfc.clf.ProtocolError(error)
                 expected = (DEP_RES.LastInformation, DEP_RES.MoreInformation)
+                if more_information:  # the response to chaining is ACK
+                    expected += (DEP_RES.PositiveAck,)
                 if res.pfb.fmt not in expected:
                     error = "unrecoverable NFC-DEP transmission error"
                     raise nfc.clf.ProtocolError(error)
@@ -332,6 +334,7 @@ class Initiator(DataExchangeProtocol):
             text = "response waiting time %.3f exceeds the timeout of %.3f sec"
             log.warning(text, rwt, timeout)
 
+        more_information = req.pfb.fmt == DEP_REQ.MoreInformation
         deadline = time.time() + timeout
         while True:
             timeout = min(rwt, deadline - time.time())
